@@ -240,7 +240,10 @@ def session_id(rng, store):
         v = rng.choice(['/../session-real', 'a/../session-real', '/inner', 'a/..', '/..', '/.', '/', 'a/', '',
                         '/../session-real.lock', '/../session-a/../session-real', 'a/../session-/inner', '/./inner',
                         '//inner', '/inner/', '/inner/..', '/inner/../inner', 'nope/../session-real',
-                        'real/../session-real2', '/../session-real2', 'a/../session-new', '/../session-', 'a/.'])
+                        'real/../session-real2', '/../session-real2', 'a/../session-new', '/../session-', 'a/.',
+                        # aliases of a live session (a78b01e: never looked at, never adopted)
+                        'real/', 'real//', 'real/.', 'real/./', 'real2/', 'x/../session-real', 'nope/../session-real2',
+                        '/../session-real/', 'real/../session-real', '/inner/../../session-real', 'real\x00/../session-real'])
     elif t == 'special':
         v = rng.choice(['\x00', 'a\x00b', '/../\x00', 'A' * 300, '/' + 'B' * 260 + '/../../..', '..\\..\\x', '\\..\\',
                         '%2e%2e%2f', '%2e%2e/%2e%2e/canary.txt', '‥/', '∕..', ' ', ';', '"', ',', '\n',
